@@ -350,8 +350,8 @@ class ExprMixin:
                     else:
                         outs.append(self.exc(s2, 'ZeroDivisionError', node))
                 return outs
-            if isinstance(op, ast.Mod):
-                # real modulo with ghost quotient: a = q*b + m, 0 <= m < b for b > 0 (floats as reals)
+            if isinstance(op, (ast.Mod, ast.FloorDiv)):
+                # real modulo / floor division with ghost quotient: a = q*b + m, 0 <= m < b for b > 0 (floats as reals)
                 ar = a.t if a.t.sort() == z3.RealSort() else z3.ToReal(a.t)
                 br = b.t if b.t.sort() == z3.RealSort() else z3.ToReal(b.t)
                 outs = []
@@ -367,7 +367,7 @@ class ExprMixin:
                     q = z3.Const(fresh_name('quot'), z3.IntSort())
                     s2.pc += [ar == z3.ToReal(q) * br + m, m >= 0, m < br]
                     s2.ghost['__lastmod'] = VTuple([VInt(q), VReal(m)])
-                    outs.append((s2, VReal(m)))
+                    outs.append((s2, VReal(m) if isinstance(op, ast.Mod) else VReal(z3.ToReal(q))))
                 return outs
             if isinstance(op, ast.Div):
                 ar = a.t if a.t.sort() == z3.RealSort() else z3.ToReal(a.t if not isinstance(a, VBool) else z3.If(a.t, 1, 0))
